@@ -41,7 +41,7 @@ func joinChains(sh *Shape, from string, depth int) [][]hop {
 	names := structNames(sh)
 	var out [][]hop
 	for i, e := range l {
-		if e.ViaPointer || firstByKey(l, e.Key) != i {
+		if e.ViaPointer || firstByKey(l, e.Key) != i || contains(e.Path, "_") {
 			continue
 		}
 		h := hop{From: from, Key: e.Key, Type: e.Type, Path: e.Path}
@@ -111,7 +111,7 @@ func GenComposeRequests(t *rapid.T, sh *Shape, other *Shape) []Request {
 	}
 	var nameOK []target
 	for i, e := range l {
-		if !e.ViaPointer && firstByKey(l, e.Key) == i {
+		if !e.ViaPointer && firstByKey(l, e.Key) == i && !contains(e.Path, "_") {
 			nameOK = append(nameOK, target{e.Key, e.Type, i})
 		}
 	}
@@ -186,7 +186,7 @@ func GenComposeRequests(t *rapid.T, sh *Shape, other *Shape) []Request {
 		usedB := map[int]bool{}
 		for _, x := range leaves {
 			for j, e := range lo {
-				if !e.ViaPointer && e.Type == x.typ && firstByKey(lo, e.Key) == j && isLeafEntry(other, e) && !usedB[j] {
+				if !e.ViaPointer && e.Type == x.typ && firstByKey(lo, e.Key) == j && isLeafEntry(other, e) && !usedB[j] && !contains(e.Path, "_") {
 					cands = append(cands, pr{x.entry, j})
 					usedB[j] = true
 					break
